@@ -211,10 +211,21 @@ func stateKey(w *World, s *Spec) ([32]byte, [32]byte) {
 	mk := modelKey(w.M)
 	h := sha256.New()
 	h.Write(mk[:])
-	fmt.Fprintf(h, "cfg%s maint%d reads%d\n", w.Cfg, w.NMaint, w.NReads)
+	fmt.Fprintf(h, "cfg%s maint%d reads%d holds%d\n", w.Cfg, w.NMaint, w.NReads, w.NHolds)
 	hashKVs(h, dumpStore(w))
 	if !w.Dead {
 		stateDump(h, w.Tree)
+		if len(w.held) > 0 {
+			vs := make([]int64, 0, len(w.held))
+			for v := range w.held {
+				vs = append(vs, v)
+			}
+			sort.Slice(vs, func(i, j int) bool { return vs[i] < vs[j] })
+			for _, v := range vs {
+				fmt.Fprintf(h, "\nheld%d:", v)
+				immutableDump(h, w.held[v])
+			}
+		}
 	}
 	var out [32]byte
 	copy(out[:], h.Sum(nil))
